@@ -103,7 +103,7 @@ struct Ctx {
 	bool overrun = false;
 	// ---- per-case outcome
 	bool failed = false, nontriv = false, discard = false;
-	std::string fail_key, fail_detail;
+	std::vector<std::pair<std::string, std::string>> fails;  // (key, detail): several independent failures per case are allowed
 	// ---- bookkeeping
 	Stats* st = nullptr;
 	bool verbose = false;  // collect a decoded description (samples, replays)
@@ -114,8 +114,7 @@ struct Ctx {
 	void reset(const uint64_t* f, int nf, bool fonly, uint64_t seed) {
 		n = 0; base[0] = 0; forced = f; nforced = nf; forced_only = fonly; rs = seed; overrun = false;
 		failed = nontriv = discard = false;
-		if (!fail_key.empty()) fail_key.clear();
-		if (!fail_detail.empty()) fail_detail.clear();
+		if (!fails.empty()) fails.clear();
 		if (!desc.empty()) desc.clear();
 	}
 	// value in [0,bound); bound == 0 means a full 64-bit draw. Smaller value == simpler.
@@ -141,21 +140,20 @@ struct Ctx {
 	void metric(const char* name, double v) { st->metric(name, v); }
 	void nontrivial() { nontriv = true; }
 	void skip() { discard = true; }
-	void fail(const char* key, const char* fmt, ...) __attribute__((format(printf, 3, 4))) {
-		if (failed) return;
+	void add_fail(const std::string& key, const char* detail) {
 		failed = true;
-		fail_key = key;
+		for (auto& f : fails) if (f.first == key) return;
+		if (fails.size() < 16) fails.emplace_back(key, detail);
+	}
+	void fail(const char* key, const char* fmt, ...) __attribute__((format(printf, 3, 4))) {
 		char buf[1024];
 		va_list ap; va_start(ap, fmt); vsnprintf(buf, sizeof buf, fmt, ap); va_end(ap);
-		fail_detail = buf;
+		add_fail(key, buf);
 	}
 	void failk(const std::string& key, const char* fmt, ...) __attribute__((format(printf, 3, 4))) {
-		if (failed) return;
-		failed = true;
-		fail_key = key;
 		char buf[1024];
 		va_list ap; va_start(ap, fmt); vsnprintf(buf, sizeof buf, fmt, ap); va_end(ap);
-		fail_detail = buf;
+		add_fail(key, buf);
 	}
 	void logf(const char* fmt, ...) __attribute__((format(printf, 2, 3))) {
 		if (!verbose) return;
@@ -237,7 +235,7 @@ static inline void invoke(const Target& t, Ctx& c) {
 #endif
 	t.fn(c);
 #ifdef PBT_UBSAN_HOOK
-	if (tl_ubsan.hit && !c.failed) { c.failed = true; c.fail_key = tl_ubsan.key; c.fail_detail = tl_ubsan.msg; }
+	if (tl_ubsan.hit) c.add_fail(tl_ubsan.key, tl_ubsan.msg);
 #endif
 }
 
@@ -253,14 +251,19 @@ struct Runner {
 	void* user = nullptr;
 
 	// Run one stored case; returns true if it fails. key/detail/desc filled.
-	static bool run_case(const Target& t, const std::vector<uint64_t>& ch, int tier, std::string* key, std::string* detail, std::string* desc, void* user = nullptr) {
+	// Run one stored case; returns true if it fails with `want` among its failure keys (any failure when want is empty).
+	static bool run_case(const Target& t, const std::vector<uint64_t>& ch, int tier, const std::string& want, std::string* keys, std::string* detail, std::string* desc, void* user = nullptr) {
 		Stats st; Ctx c; c.st = &st; c.tier = tier; c.verbose = (desc != nullptr); c.user = user;
 		c.reset(ch.data(), (int)ch.size(), true, 0);
 		invoke(t, c);
-		if (key) *key = c.fail_key;
-		if (detail) *detail = c.fail_detail;
+		bool hit = false;
+		if (keys) keys->clear();
+		for (auto& f : c.fails) {
+			if (keys) { if (!keys->empty()) *keys += " "; *keys += f.first; }
+			if (want.empty() ? !hit : f.first == want) { hit = true; if (detail) *detail = f.second; }
+		}
 		if (desc) *desc = c.desc;
-		return c.failed;
+		return hit;
 	}
 
 	// Shrink a failing choice list while the failure key stays the same.
@@ -268,8 +271,7 @@ struct Runner {
 		int budget = 4000;
 		auto still = [&](const std::vector<uint64_t>& cand) {
 			if (budget-- <= 0) return false;
-			std::string k;
-			return run_case(t, cand, tier, &k, nullptr, nullptr, user) && k == key;
+			return run_case(t, cand, tier, key, nullptr, nullptr, nullptr, user);
 		};
 		if (t.domain) return ch;                      // sweep: the index is the case
 		if (key.compare(0, 6, "ubsan/") == 0) return ch;  // the runtime reports each site once per process
@@ -356,10 +358,10 @@ struct Runner {
 							(*bitmap)[h >> 6].fetch_or(1ULL << (h & 63), std::memory_order_relaxed);
 						}
 					}
-					if (c.failed) {
-						FailRec& fr = fails[c.fail_key];
+					if (c.failed) for (auto& f : c.fails) {
+						FailRec& fr = fails[f.first];
 						fr.count++;
-						if (i < fr.index) { fr.index = i; fr.choices.assign(c.choices, c.choices + c.n); fr.detail = c.fail_detail; }
+						if (i < fr.index) { fr.index = i; fr.choices.assign(c.choices, c.choices + c.n); fr.detail = f.second; }
 					}
 				}
 			}
@@ -386,9 +388,8 @@ struct Runner {
 		// shrink + describe failures
 		for (auto& kv : R.fails) {
 			kv.second.choices = shrink(t, kv.second.choices, kv.first);
-			std::string k, d, desc;
-			run_case(t, kv.second.choices, tier, &k, &d, &desc, user);
-			if (k == kv.first) kv.second.detail = d;
+			std::string d, desc;
+			if (run_case(t, kv.second.choices, tier, kv.first, nullptr, &d, &desc, user)) kv.second.detail = d;
 			kv.second.desc = desc;
 		}
 		// samples: first few non-trivial cases in index order, described
@@ -458,8 +459,8 @@ static inline int pbt_main(int argc, char** argv, const char* property_id, void*
 		if (!read_replay(replay, &tn, &ch)) { fprintf(stderr, "cannot read replay %s\n", replay); return 2; }
 		for (auto& t : targets()) if (t.name == tn) {
 			std::string k, d, desc;
-			bool f = Runner::run_case(t, ch, R.tier, &k, &d, &desc, user);
-			printf("REPLAY target=%s result=%s key=%s\n  case: %s\n  detail: %s\n", tn.c_str(), f ? "FAIL" : "pass", k.c_str(), desc.c_str(), d.c_str());
+			bool f = Runner::run_case(t, ch, R.tier, "", &k, &d, &desc, user);
+			printf("REPLAY target=%s result=%s keys=%s\n  case: %s\n  detail: %s\n", tn.c_str(), f ? "FAIL" : "pass", k.c_str(), desc.c_str(), d.c_str());
 			return f ? 1 : 0;
 		}
 		fprintf(stderr, "replay target %s not in this harness\n", tn.c_str());
